@@ -103,7 +103,11 @@ func RunPath(prog *ssa.Program, fn *ssa.Function, prefix []string, s *solver.Sol
 			}
 			switch p := r.(type) {
 			case abortPath:
-				finish("aborted", p.reason, "")
+				why := p.reason
+				if x.abortSite != "" && !strings.Contains(why, " <- ") {
+					why += " @ " + siteKey(x.abortSite)
+				}
+				finish("aborted", why, "")
 			case endPath:
 				finish("ended", p.reason, "")
 			case exitPanic:
